@@ -354,6 +354,10 @@ func (s *Fn) lenOfX(x ssa.Value) Lin {
 			return konst(a.Len())
 		}
 	}
+	// an array value (a copy made for a range loop, a loaded table): its length is part of its type
+	if a, ok := x.Type().Underlying().(*types.Array); ok {
+		return konst(a.Len())
+	}
 	return s.lenOf(x)
 }
 
